@@ -477,8 +477,31 @@ def main():
 
 
 MANIFEST = {
-    "claimed": False,
-    "text": "",
-    "note": "",
+    "claimed": True,
+    "text": "Theorems (Coq, generic in the element type and its arithmetic, so valid for binary64 with every NaN/rounding "
+            "behaviour; for every history = list of estimator operations applied clone-then-replace to the empty estimator): "
+            "C42_invariant (state n x 1, covariance n x n, unique identifiers, index blocks of 2 rows per clock and 1 per link "
+            "inside 0..n, pairwise disjoint, sizes adding up to n); C42_unrelated_kept (a successful add/remove of a clock, "
+            "external clock or link leaves the offset, frequency and delay queries - value and uncertainty - of every other "
+            "clock and link exactly as they were) with the per-operation forms C42_add_clock_preserves, "
+            "C42_remove_clock_preserves, C42_add_link_preserves, C42_remove_link_preserves, C42_external_preserves (also: what "
+            "the operation reports for its own identifier, time and external clocks unchanged); C42_success_conditions (exact "
+            "success condition of each add/remove); C42_errors_leave_state (an operation naming an unknown identifier or adding "
+            "a duplicate fails with an error and the handle keeps its state) and C42_failed_keeps_state; C42_time_monotone "
+            "(progress_time to an earlier time - negative wrapping 128-bit difference - fails, otherwise succeeds and sets "
+            "exactly that time; all other operations keep the time except the absorption of a system clock step, which shifts "
+            "the time scale by the step) with C42_time_difference (the wrapping difference is the ordinary one below 2^127). "
+            "The model, including progress_time and measurement arithmetic, is tied bit for bit to the real EstimatorState on "
+            "random histories on every run.",
+    "note": "Trusted: Coq kernel + vm_compute; the hand-written model coq/Model/Estimator.v (+ FloatBits.v instance) of "
+            "estimator.rs/matrix.rs with Vec/Box storage (the fixed-capacity NoAllocKalmanStorage additionally panics when its "
+            "capacity N is exceeded: not modelled); harness + python driver. Index assertions and matrix dimension assertions are "
+            "explicit Panic results guarded up front (unreachable under the invariant). Indices are nat: `base_index -= delta` "
+            "cannot underflow on a well-formed state. 'Time never moves backwards' is read as DESIGN.md does (progress_time); "
+            "absorb_system_clock_offset_change moves the estimator time by the step on purpose. Controller level: "
+            "KalmanLink::measurement commits the time progression before the measurement, so a measurement that then fails (e.g. "
+            "on a link whose external clock was removed - remove_external_clock does not check for links, FIXME in filter.rs) "
+            "leaves the estimator progressed to `now` (modelled in Model/PtpController.v, exercised by C43). Print Assumptions: "
+            "closed under the global context for every theorem.",
     "design_ref": "DESIGN.md 3 C42",
 }
